@@ -89,7 +89,7 @@ pub fn strategy(g: RxGen) -> BoxedStrategy<SpCase> {
                     all.push(Step::Adv(100));
                     all.push(Step::R(ROp::ReadToEnd { buf }));
                     all.push(Step::Adv(300));
-                    SpCase { sock: sock.clone(), incoming, peer_isn, conn_id, peer_wnd: 1 << 20, complete_handshake: true, key, steps: all, linger_ms: 200, discipline: !g.hostile }
+                    SpCase { sock: sock.clone(), incoming, peer_isn, conn_id, peer_wnd: 1 << 20, complete_handshake: true, key, steps: all, linger_ms: 200, discipline: !g.hostile, bystander: None }
                 })
         })
         .boxed()
